@@ -12,6 +12,7 @@ import (
 	"math/bits"
 	"sort"
 	"strings"
+	"unsafe"
 
 	"github.com/cespare/xxhash/v2"
 	"golang.org/x/tools/go/ssa"
@@ -287,6 +288,12 @@ func init() {
 	reg("internal/godebug.(*Setting).IncNonDefault", func(fr *frame, args []value) value { return nil })
 
 	// ---- math
+	reg("internal/strconv.float64frombits", func(fr *frame, args []value) value { return math.Float64frombits(cu64(fr, args[0])) })
+	reg("internal/strconv.float32frombits", func(fr *frame, args []value) value {
+		return math.Float32frombits(uint32(cu64(fr, args[0])))
+	})
+	reg("internal/strconv.float64bits", func(fr *frame, args []value) value { return math.Float64bits(args[0].(float64)) })
+	reg("internal/strconv.float32bits", func(fr *frame, args []value) value { return math.Float32bits(args[0].(float32)) })
 	reg("math.Float64bits", func(fr *frame, args []value) value { return math.Float64bits(args[0].(float64)) })
 	reg("math.Float64frombits", func(fr *frame, args []value) value { return math.Float64frombits(cu64(fr, args[0])) })
 	reg("math.Float32bits", func(fr *frame, args []value) value { return math.Float32bits(args[0].(float32)) })
@@ -440,6 +447,58 @@ func init() {
 	reg("errors.Is", func(fr *frame, args []value) value { return fr.m.errorsIs(fr, args[0].(iface), args[1].(iface)) })
 	reg("errors.As", func(fr *frame, args []value) value { return fr.m.errorsAs(fr, args[0].(iface), args[1].(iface)) })
 
+	// gjson / jsonparser unsafe helpers
+	reg("github.com/tidwall/gjson.fillIndex", func(fr *frame, args []value) value {
+		js := args[0]
+		c := args[1].(*value)
+		pt := mustDeref(fr.fn.Signature.Params().At(1).Type())
+		st := (*c).(structure)
+		vi := structFieldIndex(pt, "value")
+		ci := structFieldIndex(pt, "calcd")
+		res := st[vi].(structure)
+		rt := pt.Underlying().(*types.Struct).Field(vi).Type()
+		rawI := structFieldIndex(rt, "Raw")
+		idxI := structFieldIndex(rt, "Index")
+		raw := res[rawI]
+		if strLen(raw) > 0 {
+			if cal, _ := st[ci].(bool); !cal {
+				jp, ok1 := strDataPtr(js)
+				rp, ok2 := strDataPtr(raw)
+				_, jsSym := js.(symstr)
+				_, rawSym := raw.(symstr)
+				if !ok1 || !ok2 || jsSym != rawSym {
+					unsupported("gjson.fillIndex: cannot relate Raw to json (mixed string representations)")
+				}
+				idx := int(rp-jp)
+				if jsSym {
+					idx = int(rp-jp) / int(unsafe.Sizeof(value(nil)))
+				}
+				if idx < 0 || idx >= strLen(js) {
+					idx = 0
+				}
+				res[idxI] = idx
+			}
+		}
+		return nil
+	})
+	reg("github.com/tidwall/gjson.GetBytes", func(fr *frame, args []value) value {
+		get := fr.fn.Pkg.Func("Get")
+		return fr.m.callSSA(fr, token.NoPos, get, []value{mkstr(args[0].([]value)), args[1]}, nil)
+	})
+	reg("github.com/tidwall/gjson.stringBytes github.com/buger/jsonparser.StringToBytes", func(fr *frame, args []value) value {
+		b := strBytes(args[0])
+		return append(make([]value, 0, len(b)), b...)
+	})
+	reg("github.com/tidwall/gjson.bytesString", func(fr *frame, args []value) value {
+		return mkstr(args[0].([]value))
+	})
+
+	// go-arena: every arena behaves like "no arena" (Alloc returns nil, so the library falls back to
+	// new/make — its documented behaviour); arena lifetime bugs are outside every claim.
+	reg("(*github.com/wundergraph/go-arena.monotonicArena).Alloc (*github.com/wundergraph/go-arena.concurrentArena).Alloc", func(fr *frame, args []value) value {
+		return uptr{}
+	})
+
 	registerSync(reg)
 	registerFmt(reg)
 }
@@ -471,9 +530,29 @@ func strOf(v value) string {
 	case string:
 		return v
 	case symstr:
+		if k, ok := normKey(v); ok {
+			return k.(string)
+		}
 		return fmt.Sprintf("<symbolic string len %d>", len(v.b))
 	}
 	return toString(v)
+}
+
+// strDataPtr: identity of the first byte of a string value (host pointer), nil for empty.
+func strDataPtr(v value) (uintptr, bool) {
+	switch v := v.(type) {
+	case string:
+		if len(v) == 0 {
+			return 0, false
+		}
+		return uintptr(unsafe.Pointer(unsafe.StringData(v))), true
+	case symstr:
+		if len(v.b) == 0 {
+			return 0, false
+		}
+		return uintptr(unsafe.Pointer(unsafe.SliceData(v.b))), true
+	}
+	return 0, false
 }
 
 func cu64(fr *frame, v value) uint64 {
